@@ -1205,6 +1205,84 @@ example :
     bindBatch [[⟨"a", .native .int⟩], [⟨"b", .native .text⟩]] [[.scalar .i32 [0, 0, 0, 1]], [.scalar .i32 [0, 0, 0, 1]]] 0
       = .error (.stmt 1 (.column "b" ⟨[], .mismatchedType⟩)) := ⟨rfl, rfl, rfl⟩
 
+/-! ### `Session::batch`: the cached first value list -/
+
+/-- **The Session path binds exactly like the frame path**: pre-serializing value list #0 against
+`statements.first()` (iff it is prepared), caching the bytes and appending them verbatim later is THE SAME as binding
+every list against its own statement's context — same cells, same error — because the statement the first list is
+checked against IS statement #0. -/
+theorem session_batch_eq_frame_batch (stmts : List BStmt) (rows : List (List RVal)) :
+    sessionBatch stmts rows = bindBatch (attemptCtxs stmts rows) rows 0 := by
+  unfold sessionBatch
+  cases stmts with
+  | nil => simp [peekFirst]
+  | cons s ss =>
+    cases rows with
+    | nil => cases s <;> simp [peekFirst]
+    | cons vs rs =>
+      cases s with
+      | query cols => simp [peekFirst]
+      | prepared cols =>
+        simp only [peekFirst, attemptCtxs, BStmt.ctx]
+        rw [bindBatch]
+        cases hf : fromSerializable (.seq vs) cols with
+        | error e => rfl
+        | ok sv => rfl
+
+private theorem attemptCtxs_get : ∀ (stmts : List BStmt) (rows : List (List RVal)) (k : Nat) (s : BStmt) (vs : List RVal),
+    stmts[k]? = some s → rows[k]? = some vs → (attemptCtxs stmts rows)[k]? = some (s.ctx vs)
+  | [], _, _, _, _, h, _ => by simp at h
+  | _ :: _, [], _, _, _, _, h => by simp at h
+  | s' :: ss, vs' :: rs, 0, s, vs, hs, hv => by
+    simp only [List.getElem?_cons_zero, Option.some.injEq] at hs hv
+    subst hs hv; simp [attemptCtxs]
+  | s' :: ss, vs' :: rs, k + 1, s, vs, hs, hv => by
+    simp only [attemptCtxs, List.getElem?_cons_succ] at hs hv ⊢
+    exact attemptCtxs_get ss rs k s vs hs hv
+
+private theorem attemptCtxs_length : ∀ (stmts : List BStmt) (rows : List (List RVal)),
+    (attemptCtxs stmts rows).length = stmts.length
+  | [], _ => rfl
+  | _ :: ss, [] => by simp [attemptCtxs, attemptCtxs_length ss []]
+  | _ :: ss, _ :: rs => by simp [attemptCtxs, attemptCtxs_length ss rs]
+
+/-- **Every value list is type-checked against ITS OWN statement's bind markers before any byte of the batch is sent,
+and the bytes sent for statement k are the cells of list k**: a `Session::batch` that reaches the wire has as many
+lists as statements; list k has statement k's number of values, each fitting statement k's column type (at any
+depth), and what is sent for statement k is exactly `from_serializable(list k, statement k's markers)`. -/
+theorem session_batch_ok (stmts : List BStmt) (rows : List (List RVal)) (svs : List SV)
+    (h : sessionBatch stmts rows = .ok svs) :
+    stmts.length = rows.length ∧ svs.length = stmts.length ∧
+    ∀ (k : Nat) (s : BStmt) (vs : List RVal) (sv : SV), stmts[k]? = some s → rows[k]? = some vs → svs[k]? = some sv →
+      fromSerializable (.seq vs) (s.ctx vs) = .ok sv ∧ vs.length = (s.ctx vs).length ∧
+      (∀ p, p ∈ (s.ctx vs).zip vs → fits p.1.ty p.2 = true) ∧ Inv sv ∧ sv.count = (s.ctx vs).length := by
+  rw [session_batch_eq_frame_batch] at h
+  obtain ⟨h1, h2, h3⟩ := bindBatch_ok _ rows 0 svs h
+  rw [attemptCtxs_length] at h1 h2
+  refine ⟨h1, h2, ?_⟩
+  intro k s vs sv hs hv hsv
+  have hf := h3 k (s.ctx vs) vs sv (attemptCtxs_get stmts rows k s vs hs hv) hv hsv
+  exact ⟨hf, bind_positional_ok vs (s.ctx vs) sv hf⟩
+
+/-- **A list that does not fit its own statement stops the whole batch** — also list #0 of a batch whose first
+statement is unprepared and a LATER one prepared (the shape in which checking the first list against "the first
+prepared statement anywhere" would let it through): no frame is sent. -/
+theorem session_batch_mismatch_rejected (stmts : List BStmt) (rows : List (List RVal)) (k : Nat) (s : BStmt)
+    (vs : List RVal) (p : Col × RVal) (hs : stmts[k]? = some s) (hv : rows[k]? = some vs)
+    (hp : p ∈ (s.ctx vs).zip vs) (hm : fits p.1.ty p.2 = false) : ∃ e, sessionBatch stmts rows = .error e := by
+  rw [session_batch_eq_frame_batch]
+  exact batch_mismatch_rejected _ rows k (s.ctx vs) vs p (attemptCtxs_get stmts rows k s vs hs hv) hv hp hm
+
+/-- Non-vacuity, the seeded shape: statement #0 unprepared with a `bigint` marker, statement #1 prepared with an
+`int` marker.  An `i32` for statement #0 is refused although it would fit statement #1's marker; an `i64` is accepted
+although it would not. -/
+example :
+    let stmts := [BStmt.query [⟨"a", .native .bigint⟩], .prepared [⟨"b", .native .int⟩]]
+    sessionBatch stmts [[.scalar .i32 [0, 0, 0, 5]], [.scalar .i32 [0, 0, 0, 6]]]
+      = .error (.stmt 0 (.column "a" ⟨[], .mismatchedType⟩)) ∧
+    (sessionBatch stmts [[.scalar .i64 [0, 0, 0, 0, 0, 0, 0, 5]], [.scalar .i32 [0, 0, 0, 6]]]).isOk = true :=
+  ⟨rfl, rfl⟩
+
 /-! ### `new_from_frame` -/
 
 private theorem readValues_spec : ∀ (n : Nat) (body rest : Bytes), readValues n body = some rest →
